@@ -12,6 +12,8 @@ CONSTANTS
   CompileMode = "stated"
   Inners <- InnersNone
   ScopeMode = "stated"
+  Doors <- DoorsApi
+  HookMode = "stated"
 INIT GInitThorough
 NEXT GNextThorough
 INVARIANTS ExpectInv CompileInv Emit
